@@ -9,6 +9,11 @@ CHECKS = {
   text="Model checking of an explicit state-machine specification of FSA (one action per public mutating method, queries as stuttering actions) with TLC, bound to the code in both directions: every history of spec actions up to depth k from every constructor route is executed on the real object and all three views plus every read-only query are compared with the spec state after each step; long random histories recorded from the real object are validated line by line by TLC against the trace specification.",
   note="Bounded universe (3 vertices x 2 labels, histories of depth <= 2 quick / 4 thorough after the constructor; random traces over 6 vertices x 3 labels); harness projection and renderer code trusted; single start vertex; non-deterministic insertions outside the domain.",
   design="4/C09"),
+ "C10": dict(
+  technique="TLA+ spec FSAOps.tla: TLC checks the language theorems on every deterministic automaton of the universe and emits the table of specified results; Prune.tla explores every pruning order (confluence); product exploration of FSA.tla's LTS with the real object runs every language-level operation against the table on each concrete state; recorded histories (queries and derived automata included) validated against FSATrace.tla",
+  text="Model checking: every deterministic automaton with <=3 states over 2 labels (and 2 states over 3 labels) is a TLC state on which the operation semantics (acceptance, enumeration, k-multiple, recurrent as greatest fixed point, shortest-path version, relabelling) are checked against each other; the library is bound to it by executing every operation on every concrete FSA object reachable by spec histories of bounded depth and comparing with the spec's table, and by TLC validating recorded random histories.",
+  note="Bounded universe and word length (<=3 quick, <=4 thorough, plus one foreign letter), k<=3; edge_ties=False and multiple start vertices not covered; harness projection trusted.",
+  design="4/C10"),
 }
 
 NOT_YET = {
